@@ -29,7 +29,7 @@ static CaseResult run(const RunCtx &ctx, const Tape &tape, Tape &canon) {
 
 static const char *rule(const std::string &prop) {
     if (prop == "C05")
-        return "cases: {base in 2..128, buffer_level 0..3, index_level 0 (default) or 1..6, 14 (key type, value type in {uint32_t, uint32_t*, std::string}, "
+        return "cases: {base in 2..128, buffer_level 0..3, index_level 0 (default) or 1..6, 16 (key type, value type in {uint32_t, uint32_t*, std::string, double, float (incl. +-infinity, lowest, +-0, denormals)}, "
                "PGMType epsilon in {1,2,4,16}) instantiations} x key universe (generated sorted distinct keys incl. lowest()/max-1) x bulk-load (default ctor, "
                "empty range, sorted pairs with repeated keys) x 4..420 ops {INS, ERASE, INS_RUN, ERASE_RUN (up to 5000 keys), FIND, LB} drawing keys by "
                "universe index (+-1 for queries). oracle: std::map after every update (touched key +-1: find, count, lower_bound; samples after runs; full "
